@@ -31,6 +31,7 @@ func runC04(c *an.Ctx) string {
 	r041HandlerGate(c)
 	r172ValidateFormat(c) // R04.10: runtime format validators (rule ids R17.2/R17.3)
 	aliasFlattening(c, "R04.12")
+	errAccumulatorRule(c, "R04.13", "http/codegen/templates/partial/request_elements.go.tpl", "http/codegen/templates/request_decoder.go.tpl", "http/codegen/templates/response_decoder.go.tpl", "http/codegen/templates/partial/single_response.go.tpl")
 	r028RefsAndBases(c, "R04.11") // shared with C02/R02.8: a Reference must not drag the referenced type's validations in
 	r181MergeErrors(c)            // shared with C18 (rule id R18.1): merged validation errors stay 400-class (Fault only if both are)
 	return explanationC04
@@ -1006,7 +1007,7 @@ func keywordBlocksIndependent(c *an.Ctx, rule string) {
 // flattened); (b) the alias's validation is added to the attribute - assigned
 // when the attribute has none, merged INTO the attribute's own otherwise - and
 // the user type's (shared) validation is never the receiver of a merge or the
-// target of a store; (c) the attribute takes the alias's default value.
+// target of a store; (c) the attribute takes the alias's default value; (d) when the aliased type is itself a user type (alias of an alias) the attribute is processed again.
 func aliasFlattening(c *an.Ctx, rule string) {
 	f, t := tableOf(c, rule, "http/codegen", "makeHTTPTypeRecursive", 0)
 	if t == nil {
@@ -1014,7 +1015,7 @@ func aliasFlattening(c *an.Ctx, rule string) {
 	}
 	const ut = `p0.Type.(expr.UserType)?#0`
 	var probs []string
-	aliasPaths := 0
+	aliasPaths, nestedPaths := 0, 0
 	for i := range t.Paths {
 		p := &t.Paths[i]
 		e := pathEnv(p)
@@ -1034,6 +1035,21 @@ func aliasFlattening(c *an.Ctx, rule string) {
 			continue
 		}
 		aliasPaths++
+		// (d) an alias of an alias: the aliased type is again a user type, the attribute must be processed again
+		if nested, known := e[ut+`.Attribute().Type.(expr.UserType)?#1`]; !known {
+			probs = append(probs, "an alias path never asks whether the aliased type is itself a user type: an alias of an alias keeps a user type after one flattening step, and a body type with pointer-style validation of a primitive is generated for it (does not compile)")
+		} else if nested {
+			nestedPaths++
+			again := false
+			for _, ef := range p.Effects {
+				if ef.Kind == "call" && ef.Term == "http/codegen.makeHTTPTypeRecursive(p0, p1)" {
+					again = true
+				}
+			}
+			if !again {
+				probs = append(probs, "when the aliased type is itself a user type the attribute is not processed again")
+			}
+		}
 		var storesType, storesDefault, setsVal, mergesInto, badMerge, badStore bool
 		for _, ef := range p.Effects {
 			switch ef.Kind {
@@ -1081,6 +1097,7 @@ func aliasFlattening(c *an.Ctx, rule string) {
 			}
 		}
 	}
+	_ = nestedPaths
 	if aliasPaths < 4 {
 		probs = append(probs, fmt.Sprintf("only %d alias paths found (expected the visited × validation combinations)", aliasPaths))
 	}
